@@ -487,7 +487,7 @@ func LemmaFirstId(ruleId string, lines [][]byte, i int) {
 //@   checks[C11,C12] addressed-line: SpecIsTarget(ruleId, chainOffset, utils.OpaqueSplitNL(old(fileContent(filePath))), index)
 //@   checks[C11,C12] line-has-rx-operand: reMatch(regex.RuleRxRegex, string(utils.OpaqueSplitNL(old(fileContent(filePath)))[index]))
 //@   checks[C11,C12] groups-span-the-line: string(utils.OpaqueSplitNL(old(fileContent(filePath)))[index]) == reGroup(regex.RuleRxRegex, string(utils.OpaqueSplitNL(old(fileContent(filePath)))[index]), 1)+reGroup(regex.RuleRxRegex, string(utils.OpaqueSplitNL(old(fileContent(filePath)))[index]), 2)+reGroup(regex.RuleRxRegex, string(utils.OpaqueSplitNL(old(fileContent(filePath)))[index]), 3)
-//@   checks[C11,C12] only-operand-replaced: lastWriteData() == utils.OpaqueJoinNL(SpecSetLine(utils.OpaqueSplitNL(old(fileContent(filePath))), index, reGroup(regex.RuleRxRegex, string(utils.OpaqueSplitNL(old(fileContent(filePath)))[index]), 1)+newRegex+reGroup(regex.RuleRxRegex, string(utils.OpaqueSplitNL(old(fileContent(filePath)))[index]), 3)))
+//@   checks[C11,C12,C02] only-operand-replaced: lastWriteData() == utils.OpaqueJoinNL(SpecSetLine(utils.OpaqueSplitNL(old(fileContent(filePath))), index, reGroup(regex.RuleRxRegex, string(utils.OpaqueSplitNL(old(fileContent(filePath)))[index]), 1)+newRegex+reGroup(regex.RuleRxRegex, string(utils.OpaqueSplitNL(old(fileContent(filePath)))[index]), 3)))
 //@   loop 0 invariant 0 <= rangeIndex0 && rangeIndex0 <= len(lines) && implies(rangeIndex0 > 0, index == rangeIndex0-1) && implies(rangeIndex0 == 0, index == 0)
 //@   loop 0 invariant implies(!foundRule, SpecFirstId(ruleId, lines, 0) >= rangeIndex0 && chainCount == 0)
 //@   loop 0 invariant implies(foundRule, SpecFirstId(ruleId, lines, 0) < rangeIndex0 && chainOffset != 0 && chainCount < chainOffset && chainCount == SpecCountSec(lines, SpecFirstId(ruleId, lines, 0)+1, rangeIndex0))
@@ -626,11 +626,11 @@ func OpaqueGlob(pattern string) []string { m, _ := filepath.Glob(pattern); retur
 // matches are fatal (the function does not return), so on return exactly the one matching
 // file was handed to updateRegex.
 //@ contract processRule
-//@   tags C11 C16 C15
+//@   tags C11 C16 C15 C12
 //@   opt trust-pre updateRegex/crs-layout
 //@   requires id-shape: len(ruleId) >= 3
 //@   modifies fsWrites
-//@   checks[C16,C11] unique-rules-file: called(updateRegex) && len(resultOf(Glob, 0)) == 1 && resultOf(Glob, 1) == nil
+//@   checks[C16,C11,C12,C15] unique-rules-file: called(updateRegex) && len(resultOf(Glob, 0)) == 1 && resultOf(Glob, 1) == nil
 //@   checks[C15,C11] writes-only-that-file: lastWritePath() == resultOf(Glob, 0)[0]
 //@   ensures[C15,C11] one-write: fsWrites() == old(fsWrites())+1
 
@@ -654,6 +654,7 @@ func OpaqueGlob(pattern string) []string { m, _ := filepath.Glob(pattern); retur
 //@   checks[C18] same-grammar: implies(called(processRegexForCompare), reMatch(regex.RuleIdFileNameRegex, resultOf(Name, 0)))
 //@   ensures[C15] reads-only: fsWrites() == old(fsWrites())
 //@   checks[C18,C12,C08] id-and-offset-from-this-file-name: implies(called(processRegexForCompare), argOf(processRegexForCompare, 0) == reGroup(regex.RuleIdFileNameRegex, resultOf(Name, 0), 1) && argOf(processRegexForCompare, 1) == ite(len(reGroup(regex.RuleIdFileNameRegex, resultOf(Name, 0), 2)) == 0, 0, utils.OpaqueDec(reGroup(regex.RuleIdFileNameRegex, resultOf(Name, 0), 2))) && argOf(runAssemble, 0) == filePath)
+//@   checks[C08,C12] a-difference-never-stops-the-walk: implies(called(processRegexForCompare) && resultOf(processRegexForCompare, 0) != nil && called(Is) && resultOf(Is, 0), r == nil)
 //@   checks[C12,C16] a-difference-is-never-forgotten: implies(old(failed), failed)
 //@   checks[C12,C16] a-difference-is-recorded: implies(called(processRegexForCompare) && resultOf(processRegexForCompare, 0) != nil && called(Is) && resultOf(Is, 0), failed)
 
@@ -673,19 +674,22 @@ func OpaqueGlob(pattern string) []string { m, _ := filepath.Glob(pattern); retur
 // ---- C18: generate hands the assembler exactly the bytes it read - the file's or stdin's -
 // so a file argument and the same bytes on stdin cannot give different results
 //@ contract createGenerateCommand#1
-//@   tags C18
+//@   tags C18 C02
 //@   checks[C18] file-bytes-reach-the-assembler-unchanged: implies(called(Run) && called(ReadFile), argOf(Run, 0) == lastRead())
 //@   checks[C18] stdin-bytes-reach-the-assembler-unchanged: implies(called(Run) && called(ReadAll), argOf(Run, 0) == resultOf(ReadAll, 0))
 //@   checks[C18] one-source: implies(called(Run), called(ReadFile) != called(ReadAll))
+//@   checks[C02,C18] the-result-is-printed-verbatim: implies(called(Run) && resultOf(Run, 1) == nil, called(WriteString) && argOf(WriteString, 0) == resultOf(Run, 0))
 
 // ---- C16 / C09: the format command returns what processFile / processAll report (cobra turns
 // a returned error into a non-zero exit status), and processAll fails when one file failed
 //@ contract createFormatCommand#1
-//@   tags C16 C09
+//@   tags C16 C09 C18 C15
 //@   safety none
 //@   results r
 //@   modifies fsWrites
 //@   checks[C16,C09] single-file-verdict-is-returned: implies(called(processFile), r == resultOf(processFile, 0))
+//@   checks[C18] only-a-missing-extension-is-completed: implies(called(parseRuleId), argOf(parseRuleId, 0) == iteS(resultOf(Ext, 0) == "", args[0]+".ra", args[0]))
+//@   checks[C15,C09] check-mode-is-handed-on: implies(called(processFile), argOf(processFile, 2) == checkOnly) && implies(called(processAll), argOf(processAll, 1) == checkOnly)
 //@   checks[C16,C09] all-files-verdict-is-returned: implies(called(processAll), r == resultOf(processAll, 0))
 //@   checks[C16,C09] something-was-formatted: implies(r == nil, called(processFile) || called(processAll))
 
@@ -728,11 +732,12 @@ func OpaqueGlob(pattern string) []string { m, _ := filepath.Glob(pattern); retur
 //@   checks[C16,C13] the-single-match-is-used: implies(err == nil, len(resultOf(Glob, 0)) == 1 && p == resultOf(Glob, 0)[0])
 
 //@ contract createRenumberTestsCommand#1
-//@   tags C13 C16
+//@   tags C13 C16 C15
 //@   safety none
 //@   results r
 //@   modifies fsWrites
 //@   checks[C13,C16] all-files-verdict-is-returned: implies(called(RenumberTests), r == resultOf(RenumberTests, 0))
+//@   checks[C13,C15] check-mode-is-handed-on: implies(called(RenumberTests), argOf(RenumberTests, 0) == checkOnly && argOf(RenumberTests, 1) == (rootValues.output == gitHub)) && implies(called(RenumberTest), argOf(RenumberTest, 1) == checkOnly)
 //@   checks[C13,C16] single-file-verdict-is-returned: implies(called(RenumberTest), r == resultOf(RenumberTest, 0))
 //@   checks[C16] lookup-failure-is-returned: implies(called(parseFilePath) && resultOf(parseFilePath, 1) != nil, r != nil && !called(RenumberTest))
 //@   checks[C13,C16] something-was-renumbered: implies(r == nil, called(RenumberTests) || called(RenumberTest))
@@ -759,6 +764,19 @@ func OpaqueGlob(pattern string) []string { m, _ := filepath.Glob(pattern); retur
 //@   checks[C18,C16] a-rejected-argument-fails: implies(called(parseRuleId) && resultOf(parseRuleId, 0) != nil, r != nil)
 //@   checks[C18] a-given-argument-is-parsed: implies(len(args) > 0, called(parseRuleId))
 
+// ---- C16: the process ends with a non-zero status when the command reported an error: Execute
+// only returns normally after a successful command (a panic ends the process with status 2 in
+// the Go runtime; nothing may swallow it)
+//@ contract Execute
+//@   tags C16
+//@   safety none
+//@   checks[C16] returns-only-after-success: called(Execute) && resultOf(Execute, 0) == nil
+//@ directive[C16] no-effect cmd.Execute recover
+
+// ---- C18: the nearest-root search is applied to the -d argument only; without -d the working
+// directory itself is the root
+//@ directive[C18] callers-of cmd.findRootDirectory cmd.workingDirectory.Set
+
 // ---- C14 / C16: update-copyright only runs with a version that Masterminds/semver accepts (the
 // read-side patterns are proved to match every such version, reglemmas in package regex), and it
 // hands exactly the validated version and the given year to the updater.
@@ -779,6 +797,7 @@ func OpaqueIsSemver(v string) bool { _, err := semver.NewVersion(v); return err 
 //@   results r
 //@   checks[C16,C14] invalid-version-rejected: implies(!OpaqueIsSemver(copyrightVariables.Version), r != nil)
 //@   checks[C16] missing-version-rejected: implies(copyrightVariables.Version == "", r != nil)
+//@   checks[C14] the-version-is-used-as-given: copyrightVariables.Version == old(copyrightVariables.Version) && copyrightVariables.Year == old(copyrightVariables.Year)
 
 //@ contract createChoreUpdateCopyrightCommand#1
 //@   tags C14
@@ -791,3 +810,4 @@ func OpaqueIsSemver(v string) bool { _, err := semver.NewVersion(v); return err 
 //@   tags C20
 //@   results r
 //@   modifies fsWrites
+//@   checks[C20] the-running-version-is-handed-over: implies(called(Updater) && rootCmd.Version != "", argOf(Updater, 0) == rootCmd.Version)
